@@ -149,6 +149,9 @@ func (s *Sched) spawn(name string, env bool, body func(g *gor)) *gor {
 						// uncaught panic in a goroutine: the program crashes
 						msg := "panic: " + s.p.panicString(r.v)
 						s.p.violationNow(s.p.panicLabel(r.v), msg, r.pos)
+						if n := len(s.p.violations); n > 0 {
+							s.p.violations[n-1].Stack = r.stack
+						}
 						ev = schedEvent{kind: evAbort, g: g, status: stCut, msg: msg}
 					default:
 						panic(r)
